@@ -108,6 +108,7 @@ type Sched struct {
 	timers   []*Timer
 	delays   int
 	mutexVC  map[string]map[int]int
+	rw       map[string]*rwState
 	onceRun  map[string]int
 	wgCount  map[string]int
 	wgVC     map[string]map[int]int
